@@ -66,6 +66,8 @@ static std::vector<item<T>> alphabet(int which)   // 0 full, 1 reduced, 2 medium
         out.push_back({res, false, res.variance() > T(), "(N=10,nonzero=10,finite=7,E=0.5,S=0.1)"});
     }
     out.push_back({hep::mc_result<T>(10, 0, 0, T(), T()), true, true, "(empty,N=10)"});
+    // an iteration that was asked for zero calls: its estimate is 0/0 and must be ignored like any other empty result
+    out.push_back({hep::mc_result<T>(0, 0, 0, T(), T()), true, true, "(empty,N=0)"});
     return out;
 }
 
@@ -149,6 +151,12 @@ static void check_sequence(report& r, std::vector<item<T>> const& alpha, std::ve
     {
         if (!vf::same_bits(we.sum(), seq[0].sum()) || !vf::same_bits(we.sum_of_squares(), seq[0].sum_of_squares()) || we.calls() != seq[0].calls())
             r.violate("equal-weighting", id, describe() + ": a single result is not returned unchanged");
+    }
+    else if ([&]() { for (auto const& x : seq) if (x.calls() == 0) return true; return false; }())
+    {
+        // equal weighting takes every result as it is; the estimate of a zero-call result is NaN: only the counters are defined
+        if (we.calls() != calls || we.non_zero_calls() != nz || we.finite_calls() != fin)
+            r.violate("counters-do-not-add", id, describe() + ": equal weighting, counters");
     }
     else
     {
